@@ -318,9 +318,11 @@ impl<L: ChainListener> ChainTracker<L> {
         res
     }
 
-    // A streamed block was rejected: forget the stream on our side and in the listeners,
-    // so that the next streamed block starts from a clean state.
-    fn abort_streamed_block(&mut self) {
+    /// A streamed block was rejected: forget the stream on our side and in the listeners,
+    /// so that the next streamed block starts from a clean state.
+    /// Also to be called by a front end that gives up on a block after `block_chunk`
+    /// without calling `add_block` / `remove_block` (e.g. the proof could not be decoded).
+    pub fn abort_streamed_block(&mut self) {
         self.decode_state = None;
         for (listener, _) in self.listeners.values() {
             listener.on_streamed_block_abort();
